@@ -13,8 +13,10 @@ typedef igris::timer_spec<int64_t, int32_t> Spec;
 typedef igris::timer_spec<int64_t> Spec;
 #endif
 typedef igris::timer_manager_basic<Spec> Mgr; typedef igris::timer_basic<Spec, int> Tm;
-static std::unique_ptr<Mgr> M;
-static std::unique_ptr<Tm> T[MAXT + 1];
+static std::unique_ptr<Mgr> M, M2;          // M2: a second manager of the same type (timers T2, no callback effects)
+static std::unique_ptr<Tm> T[MAXT + 1], T2[MAXT + 1];
+static int NT2; static long now2_; static std::vector<long long> fired2;
+static void cb2(int id) { fired2.push_back(id); }
 static Eff eff[MAXT + 1];
 static int NT; static long now_; static std::vector<long long> fired;
 // the manager sees time BASE + t * 2^SC and intervals iv * 2^SC (scheduling is invariant under this map); events are logged in model units
@@ -24,10 +26,12 @@ static long upd(long d) { return d * (1L << SC); }
 static long down(long t) { return (t - BASE) >> SC; }
 static long downd(long d) { return d >> SC; }
 static stimer_head ST;
+static void observe2(Ev &e, long tm);
 static void cb(int id) {
     fired.push_back(id);
     const Eff &e = eff[id];
-    if (e.kind == 1) T[e.t]->unplan();
+    if (e.kind == 3) { fired2.clear(); now2_ = now_; M2->exec(up(now_)); Ev x("Exec2"); x.i("now", now_).ints("fired", fired2).i("from_callback", id); observe2(x, now_); x.end(); }   // the other manager, from inside this one's exec
+    else if (e.kind == 1) T[e.t]->unplan();
     else if (e.kind == 2) M->plan(*T[e.t], up(now_ + e.ds), upd(e.iv));
 }
 static void observe(Ev &e, long tm) {
@@ -36,21 +40,31 @@ static void observe(Ev &e, long tm) {
     if (!M->empty()) mi.push_back(downd(M->minimal_interval(up(tm))));
     e.ints("planned", pl).ints("fin", fin).i("empty", M->empty() ? 1 : 0).ints("mi", mi);
 }
+static void observe2(Ev &e, long tm) {
+    std::vector<long long> pl, fin, mi;
+    for (int t = 1; t <= NT2; ++t) { pl.push_back(T2[t]->is_planned() ? 1 : 0); fin.push_back(down(T2[t]->finish())); }
+    if (!M2->empty()) mi.push_back(downd(M2->minimal_interval(up(tm))));
+    e.ints("planned", pl).ints("fin", fin).i("empty", M2->empty() ? 1 : 0).ints("mi", mi);
+}
 int main(int argc, char **argv) {
     return run(argc, argv, [&](const std::vector<std::string> &t) {
         const std::string &op = t[0];
         if (op == "R") {
-            if (t[1] == "tm") { for (int i = 1; i <= MAXT; ++i) T[i].reset(); M.reset(new Mgr()); NT = num(t[2]); now_ = 0; SC = t.size() > 3 ? (int)num(t[3]) : 0; BASE = t.size() > 4 ? (long)num(t[4]) : 0;
+            if (t[1] == "tm") { for (int i = 1; i <= MAXT; ++i) { T[i].reset(); T2[i].reset(); } M.reset(new Mgr()); M2.reset(new Mgr()); NT2 = t.size() > 5 ? (int)num(t[5]) : 0; now2_ = 0; NT = num(t[2]); now_ = 0; SC = t.size() > 3 ? (int)num(t[3]) : 0; BASE = t.size() > 4 ? (long)num(t[4]) : 0;
+                for (int i = 1; i <= NT2; ++i) { T2[i].reset(new Tm(igris::make_delegate(cb2), (int)i)); T2[i]->set_start(up(0)); T2[i]->set_interval(upd(1)); }
                 for (int i = 1; i <= NT; ++i) { T[i].reset(new Tm(igris::make_delegate(cb), (int)i)); T[i]->set_start(up(0)); T[i]->set_interval(upd(1)); eff[i] = Eff(); }
-                Ev e("Reset"); e.str("kind", "tm").i("nt", NT).i("scale", SC).i("base_hi", (long)(BASE >> 31)).i("base_lo", (long)(BASE & 0x7fffffff)); observe(e, now_); e.end(); }
+                Ev e("Reset"); e.str("kind", "tm").i("nt", NT).i("nt2", NT2).i("scale", SC).i("base_hi", (long)(BASE >> 31)).i("base_lo", (long)(BASE & 0x7fffffff)); observe(e, now_); e.end(); }
             else { stimer_init(&ST, 0, 1); Ev e("Reset"); e.str("kind", "st").i("nt", 1); e.end(); }
             return; }
         if (op == "Plan") { M->plan(*T[num(t[1])], up(num(t[2])), upd(num(t[3]))); Ev e("Plan"); e.i("t", num(t[1])).i("st", num(t[2])).i("iv", num(t[3])); observe(e, now_); e.end(); }
         else if (op == "Replan") { M->plan(*T[num(t[1])]); Ev e("Replan"); e.i("t", num(t[1])); observe(e, now_); e.end(); }
         else if (op == "Unplan") { T[num(t[1])]->unplan(); Ev e("Unplan"); e.i("t", num(t[1])); observe(e, now_); e.end(); }
         else if (op == "SetCb") { int id = num(t[1]); Eff x; std::string k = t[2];
-            if (k == "unplan") { x.kind = 1; x.t = num(t[3]); } else if (k == "plan") { x.kind = 2; x.t = num(t[3]); x.ds = num(t[4]); x.iv = num(t[5]); }
+            if (k == "exec2") { x.kind = 3; } else if (k == "unplan") { x.kind = 1; x.t = num(t[3]); } else if (k == "plan") { x.kind = 2; x.t = num(t[3]); x.ds = num(t[4]); x.iv = num(t[5]); }
             eff[id] = x; Ev e("SetCb"); e.i("t", id).str("k", k.c_str()).i("k2", x.t).i("ds", x.ds).i("iv", x.iv); observe(e, now_); e.end(); }
+        else if (op == "Plan2") { M2->plan(*T2[num(t[1])], up(num(t[2])), upd(num(t[3]))); Ev e("Plan2"); e.i("t", num(t[1])).i("st", num(t[2])).i("iv", num(t[3])); observe2(e, now2_); e.end(); }
+        else if (op == "Unplan2") { T2[num(t[1])]->unplan(); Ev e("Unplan2"); e.i("t", num(t[1])); observe2(e, now2_); e.end(); }
+        else if (op == "Exec2") { long tm = num(t[1]); now2_ = tm; fired2.clear(); M2->exec(up(tm)); Ev e("Exec2"); e.i("now", tm).ints("fired", fired2).i("from_callback", 0); observe2(e, tm); e.end(); }
         else if (op == "Exec") { now_ = num(t[1]); fired.clear(); M->exec(up(now_)); Ev e("Exec"); e.i("now", now_).ints("fired", fired); observe(e, now_); e.end(); }
         else if (op == "SInit") { stimer_init(&ST, num(t[1]), num(t[2])); Ev e("SInit"); e.i("st", num(t[1])).i("iv", num(t[2])).i("sstart", ST.start).i("sint", ST.interval).i("splaned", ST.planed); e.end(); }
         else if (op == "SPlan") { stimer_plan(&ST, num(t[1]), num(t[2])); Ev e("SPlan"); e.i("st", num(t[1])).i("iv", num(t[2])).i("sstart", ST.start).i("sint", ST.interval).i("splaned", ST.planed); e.end(); }
